@@ -96,6 +96,9 @@ def c17(ck):
                       "flag/width combinations on composite directives, %#p / %^P / %#P, and offsets with a width or the _ flag are unspecified (totality only)"]
     ck.replay_stage("dates", "MC_C17", "MC_C17_quick.cfg" if ck.tier == "quick" else "MC_C17_thorough.cfg",
                     tlc_workers=8 if ck.tier == "quick" else 12, harness_workers=6, timeout=3400)
+    # "equality and ordering of date-times are chronological regardless of offset": LiquidCompare on the date / date-time
+    # part of the C11 pool plus pairs whose local dates order against their instants
+    ck.replay_stage("ordering", "MC_C11", "MC_C11_dates.cfg", tlc_workers=4)
 
 
 def suite_frames(ck):
@@ -320,8 +323,12 @@ def c19(ck):
     ck.assumptions = ["sources whose name listing is truthful (InMemorySource)"]
     if ck.tier == "quick":
         ck.replay_stage("body1x3policies", "MC_C08", "MC_C19_quick.cfg")
+        # partials given as SOURCE TEXT (blanks and trim markers at their edges, broken ones), parsed by LiquidParse,
+        # included and rendered under the three policies, twice
+        ck.replay_stage("partials-from-text", "MC_Lex", "MC_Lex_partial_quick.cfg", tlc_workers=6)
     else:
         ck.replay_stage("body2x3policies", "MC_C08", "MC_C19_thorough.cfg", tlc_workers=12, timeout=3400)
+        ck.replay_stage("partials-from-text", "MC_Lex", "MC_Lex_partial_thorough.cfg", tlc_workers=12, timeout=3400)
 
 
 def c20(ck):
